@@ -30,7 +30,8 @@ def shards(tier, seed):
         # close() called from inside the status callback when the first loss is reported
         out.append({"name": f"{kind}-fault_reconnect-close_on_disconnected", "kind": kind, "shape": "fault_reconnect", "scb": "close_on_disconnected", "tier": tier, "seed": seed})
         for shape in SHAPES:
-            for scb in (("ok",) if tier == "quick" and shape not in ("plain", "slow_transport", "fault_reconnect", "send_write_error", "send_fault_read_silent", "double_close", "busy_reply_while_closing") else ("ok", "raise", "slow", "slow_connected", "slow_closed")):
+            for scb in (("ok",) if tier == "quick" and shape not in ("plain", "slow_transport", "fault_reconnect", "send_write_error", "send_fault_read_silent", "double_close", "busy_reply_while_closing") else ("ok", "raise", "slow", "slow_connected", "slow_closed")
+                        + (("raise_on_disconnected", "raise_on_connected") if shape in ("fault_reconnect", "send_write_error", "send_fault_read_silent") else ())):
                 out.append({"name": f"{kind}-{shape}-{scb}", "kind": kind, "shape": shape, "scb": scb, "tier": tier, "seed": seed})
     return out
 
@@ -243,7 +244,7 @@ def run_shard(spec, acc):
         res = check(sim, stats, info, acc, kind, shape, step, scb)
         if by and sim is not None and not stats["error"]:
             simgw.judge_bystander(sim, acc, {"client": kind, "shape": shape, "step": step, "status_cb": scb})
-        if scb == "raise" and res is not None:
+        if scb in ("raise", "raise_on_disconnected", "raise_on_connected") and res is not None:
             # a raising status callback must not change what the client does
             sim2, stats2, info2 = session(kind, shape, step, "ok", bystander=by, cb_style=style)
             if not stats2["error"] and info2["close_step"] is not None:
